@@ -1,0 +1,85 @@
+//go:build verif
+
+package parser
+
+// Contracts for the verification machinery in /verif (comment-only file; compiled
+// only with -tags verif and adds no code).  Spec functions wfA, M, parserKind,
+// valueMatches, reservedOK, tblOK come from lexer/verif_contracts.go.
+
+//@ # the parser's current token is EOS or mirrors the lexer's last token, whose kind the
+//@ # switch in Read has a case for and whose value has the dynamic type Read asserts
+//@ spec tokenOK(p) = p.token == base.EOS || (p.token == p.Lexer.tok && parserKind(p.token) && valueMatches(p.Lexer))
+//@ spec wfP(p) = p != nil && wfA(p.Lexer) && reservedOK() && lexer.reserved != nil && tblOK() && tokenOK(p)
+//@ # token-level measure: two units per unit of the reader measure, one for a pushed-back token
+//@ spec Mp(p) = 2*M(p.Lexer.reader) + ite(p.ungetFlg, 1, 0)
+
+//@ func (*ti/parser.Parser).getToken
+//@   safe
+//@   requires wfP(p)
+//@   ensures wfP(p) && !p.ungetFlg && sameInput(p.Lexer.reader)
+//@   ensures[C02,C03] old(p.ungetFlg) ==> p.token == old(p.token) && M(p.Lexer.reader) == old(M(p.Lexer.reader))
+//@   ensures[C02,C03] !old(p.ungetFlg) && p.token != base.EOS ==> M(p.Lexer.reader) < old(M(p.Lexer.reader))
+//@   ensures[C02,C03] M(p.Lexer.reader) <= old(M(p.Lexer.reader)) + 1
+//@   ensures[C06] old(p.ungetFlg) ==> p.Row == old(p.Row) && p.ErrorRow == old(p.ErrorRow)
+//@   ensures[C06] !old(p.ungetFlg) && p.token == '\n' ==> p.Row == old(p.Row) + 1 && p.ErrorRow == old(p.ErrorRow)
+//@   ensures[C06] !old(p.ungetFlg) && p.token != '\n' && p.token != base.EOS ==> p.Row == old(p.Row) && p.ErrorRow == p.Row
+//@   ensures[C06] !old(p.ungetFlg) && p.token == base.EOS ==> p.Row == old(p.Row) && p.ErrorRow == old(p.ErrorRow)
+
+//@ func (*ti/parser.Parser).Read
+//@   safe
+//@   requires wfP(p)
+//@   ensures wfP(p) && !p.ungetFlg && sameInput(p.Lexer.reader)
+//@   ensures[C03] isnil(result1)
+//@   ensures[C02,C03] result0 == nil ==> p.token == base.EOS
+//@   ensures[C02,C03] result0 != nil ==> p.token != base.EOS && Mp(p) < old(Mp(p))
+//@   ensures[C02,C03] Mp(p) <= old(Mp(p)) + 2
+//@   ensures[C09] result0 != nil && p.token == base.INT ==> result0.tType == base.INT
+//@   ensures[C09] result0 != nil && p.token == base.FLOAT ==> result0.tType == base.FLOAT
+//@   ensures[C09] result0 != nil && p.token == base.STRING ==> result0.tType == base.STRING
+//@   ensures[C09] result0 != nil && p.token == base.NIL ==> result0.tType == base.NIL
+
+//@ func (*ti/parser.Parser).Unget
+//@   safe
+//@   requires p != nil
+//@   ensures p.ungetFlg
+
+//@ func (*ti/parser.Parser).SkipNewline
+//@   safe
+//@   terminates
+//@   requires wfP(p)
+//@   ensures wfP(p) && sameInput(p.Lexer.reader) && isnil(result)
+//@   ensures[C02] Mp(p) <= old(Mp(p)) + 2
+//@   loop 0 invariant wfP(p) && sameInput(p.Lexer.reader) && Mp(p) <= old(Mp(p))
+//@   loop 0 decreases Mp(p)
+
+//@ func (*ti/parser.Parser).ReadAhead
+//@   safe
+//@   requires wfP(p)
+//@   ensures wfP(p) && sameInput(p.Lexer.reader) && isnil(result1) && p.ungetFlg
+//@   ensures[C02] Mp(p) <= old(Mp(p)) + 3
+
+//@ func (*ti/parser.Parser).ReadTwice
+//@   safe
+//@   requires wfP(p)
+//@   ensures wfP(p) && sameInput(p.Lexer.reader) && isnil(result1)
+//@   ensures[C02] result0 != nil ==> Mp(p) < old(Mp(p))
+
+//@ func (*ti/parser.Parser).ReadWithCheck
+//@   safe
+//@   requires wfP(p)
+//@   ensures wfP(p) && sameInput(p.Lexer.reader) && isnil(result2)
+//@   ensures[C02] result0 != nil ==> Mp(p) < old(Mp(p))
+//@   ensures result1 ==> result0 != nil
+
+//@ func (*ti/parser.Parser).SkipToTargetToken
+//@   safe
+//@   terminates
+//@   requires wfP(p)
+//@   ensures wfP(p) && sameInput(p.Lexer.reader) && isnil(result)
+//@   loop 0 invariant wfP(p) && sameInput(p.Lexer.reader) && Mp(p) <= old(Mp(p))
+//@   loop 0 decreases Mp(p)
+
+//@ func (*ti/parser.Parser).Skip
+//@   safe
+//@   requires wfP(p)
+//@   ensures wfP(p) && sameInput(p.Lexer.reader)
